@@ -86,6 +86,7 @@ fn main() {
         "C12" => drive(&props::hedge::C12, &opts),
         "C08" => drive(&props::budget::C08, &opts),
         "C13" => drive(&props::adaptive::C13, &opts),
+        "C10" => drive(&props::cache::C10, &opts),
         "C02" => drive(&props::ratelimiter::C02, &opts),
         "C15" => drive(&props::ratelimiter::C15, &opts),
         _ => {
